@@ -77,6 +77,14 @@ class time_limit:
         return False
 
 
+def is_causal_of(E):
+    """Lcapy's own inference; an exception inside it is left to surface through evaluate() (which reads it too)"""
+    try:
+        return bool(E.is_causal)
+    except Exception:   # noqa
+        return False
+
+
 class Real:
     """access to the real library (imported late: ~10 s)"""
 
@@ -277,7 +285,8 @@ def gen_affine(rng):
 
 
 def gen_fn(rng, discrete):
-    pool = (DISC_FNS * 2 + ['sign', 'tri']) if discrete else CONT_FNS + ['rect', 'tri', 'ramp', 'rampstep', 'heaviside']
+    # discrete time: Lcapy rewrites sign/rect/Heaviside to dtsign/dtrect/UnitStep there, so only the discrete table is used
+    pool = (DISC_FNS * 2 + ['tri', 'ramp']) if discrete else CONT_FNS + ['rect', 'tri', 'ramp', 'rampstep', 'heaviside']
     r = rng.random()
     if r < 0.12:
         return 'trap:' + fstr(rng.choice(TRAP_ALPHAS))
@@ -434,7 +443,7 @@ def run(chk, replay=None):
         mnum, msym, mspec = drv.ask1('sf.num %s %s' % (tok, fstr(x))), drv.ask1('sf.sym %s %s' % (tok, fstr(x))), drv.ask1('sf.spec %s %s' % (tok, fstr(x)))
         isdisc = drv.ask1('sf.disc %s %s' % (tok, fstr(x))) == 'true'
         indom = drv.ask1('sf.dom %s' % tok) == 'true'
-        masked = vname in ('t', 'n') and x < 0 and bool(E.is_causal)
+        masked = vname in ('t', 'n') and x < 0 and is_causal_of(E)
         rn = L.numeric(E, float(x))
         rs = L.symbolic(E, x)
         if rn[0] == 'timeout' or rs[0] == 'timeout':
@@ -511,7 +520,7 @@ def run(chk, replay=None):
         tk = ' '.join(toks(e))
         if E is None:
             E = L.lcapy.expr(L.to_sympy(e, L.vars[vname].sympy))
-        causal = vname in ('t', 'n') and bool(E.is_causal)
+        causal = vname in ('t', 'n') and is_causal_of(E)
         mnum = drv.ask1('ev.func %d %s %s' % (1 if causal else 0, fstr(x), tk))
         msym = drv.ask1('ev.sym %s %s' % (fstr(x), tk))
         mspec = drv.ask1('ev.spec %s %s' % (fstr(x), tk))
@@ -603,8 +612,15 @@ def run(chk, replay=None):
             return
         tk = ' '.join(toks(e))
         scal = []
+        # SymPy's limit of a Piecewise whose body is identically 0 is 0 whatever the condition, so evaluate()'s NaN -> limit
+        # fallback returns 0 outside the guard; a degenerate input (the guarded value is the constant 0), not counted
+        zero_body = any(a.expr == 0 for pwz in E.sympy.atoms(sym.Piecewise) for a in pwz.args)
+        if zero_body:
+            chk.count('degenerate', 'piecewise-with-zero-body')
         for x in xs:
             fails, inf = judge_expr(e, vname, x, E)
+            if zero_body:
+                fails = [f for f in fails if f[0] != 'numeric-guard']
             chk.case((tk, vname, x, 'scalar'), nontrivial=(inf['mnum'] != 'other'))
             chk.count('expr_domain', vname)
             chk.count('expr_point', 'negative' if x < 0 else 'zero' if x == 0 else 'large' if abs(x) > 1000 else 'positive')
@@ -618,14 +634,17 @@ def run(chk, replay=None):
                     small, f2, inf2 = e, fails, inf
                 counter['n'] += 1
                 fl_ = sorted(fns_in(small))
-                chk.counterexample({'kind': 'expr', 'side': f2[0][0], 'fn': fl_[0] if len(fl_) == 1 else '+'.join(fl_)},
+                key = {'kind': 'expr', 'side': f2[0][0], 'fn': fl_[0] if len(fl_) == 1 else '+'.join(fl_)}
+                if f2[0][0] == 'numeric' and inf2['rn'][0] == 'err':
+                    key = {'kind': 'expr', 'side': 'numeric', 'error': inf2['rn'][1]}
+                chk.counterexample(key,
                                    dict(input=inf2['inp'], original=inf['inp'], lcapy={'evaluate': str(inf2['rn']), 'subs': str(inf2['rs'])},
                                         model={'numeric': inf2['mnum'], 'symbolic': inf2['msym']}, spec=f2[0][1]),
                                    'numeric evaluation / exact substitution / documented value differ at a regular point')
         if not with_arrays or len(xs) < 2 or any(r[0] == 'timeout' for r in scal):
             return
         # --- list / tuple / ndarray: element-wise agreement with scalar evaluation, exactly
-        causal = vname in ('t', 'n') and bool(E.is_causal)
+        causal = vname in ('t', 'n') and is_causal_of(E)
         marr = drv.ask1('ev.arg %d %s %s' % (1 if causal else 0, ','.join(fstr(x) for x in xs), tk))
         fx = [float(x) for x in xs]
         for form, arg in (('list', list(fx)), ('tuple', tuple(fx)), ('ndarray', np.array(fx))):
@@ -886,38 +905,84 @@ def run(chk, replay=None):
             ok = False
         ho('constant-fval-cval', ok, {'constant': fstr(c), 'fval': repr(E.fval), 'cval': repr(E.cval)})
 
+    def check_response_convergence():
+        """last clause of C17 (harness only): H.response(x, t) of a sampled unit step must approach the symbolic
+        step response as the step shrinks"""
+        a = Fraction(rng.randint(1, 6), rng.choice([1, 2]))
+        b = Fraction(rng.randint(1, 6), rng.choice([1, 2]))
+        mk = rng.choice(['expr', 'transfer', 'impedance', 'voltage'])
+        method = rng.choice(['bilinear', 'impulse-invariance', 'backward-euler', 'bilinear'])
+        src = '(%s)/(s+(%s))' % (fstr(b), fstr(a))
+        H = getattr(L.lcapy, mk)(src)
+        errs = []
+        try:
+            with time_limit(60):
+                for dtv in (1 / 16, 1 / 64, 1 / 256):
+                    tv = np.arange(0, 1.0001, dtv)
+                    exact = float(b / a) * (1 - np.exp(-float(a) * tv))
+                    y = np.real(H.response(np.ones(len(tv)), tv, method=method))
+                    errs.append(float(np.max(np.abs(y - exact))))
+        except Timeout:
+            chk.count('degenerate', 'sympy-timeout')
+            return
+        except Exception as ex:   # noqa
+            errs = ['%s: %s' % (type(ex).__name__, str(ex)[:100])]
+        chk.case((src, mk, method, 'response'), nontrivial=True)
+        top = float(b / a)
+        ok = len(errs) == 3 and errs[2] <= errs[0] / 3 and errs[2] <= 0.05 * top
+        ho('response-convergence', ok, {'H': src, 'quantity': mk, 'method': method, 'input': 'unit step sampled on [0,1]',
+                                         'max_abs_error_for_dt_1/16_1/64_1/256': errs, 'symbolic': '(b/a)(1-exp(-a t))'})
+
+    def parse_tokens(tk):
+        t = tk.pop(0)
+        h = t.split(':')
+        if h[0] in ('var', 'nan'):
+            return (h[0],)
+        if h[0] == 'c':
+            return ('c', Fraction(h[1]))
+        if h[0] in ('add', 'sub', 'mul', 'div'):
+            a = parse_tokens(tk)
+            return (h[0], a, parse_tokens(tk))
+        if h[0] == 'neg':
+            return ('neg', parse_tokens(tk))
+        if h[0] == 'pow':
+            return ('pow', int(h[1]), parse_tokens(tk))
+        if h[0] == 'app':
+            return ('app', ':'.join(h[1:]), parse_tokens(tk))
+        if h[0] == 'pw':
+            l_ = parse_tokens(tk)
+            r_ = parse_tokens(tk)
+            t_ = parse_tokens(tk)
+            return ('pw', h[1], l_, r_, t_, parse_tokens(tk))
+        raise ValueError(t)
+
+    def run_recorded(inp, origin):
+        if inp.get('stream') == 'table':
+            check_table(inp['fn'], inp['var'], Fraction(inp['x']), origin=origin)
+            return True
+        if inp.get('stream') == 'expr':
+            check_expr(parse_tokens(inp['tokens'].split()), inp['var'], [Fraction(inp['x'])], with_arrays=False)
+            return True
+        return False
+
     # ------------------------------------------------------------------ replay of a recorded case
     if replay:
         rp = json.load(open(replay if os.path.isabs(replay) else os.path.join(common.VERIF, replay)))
         inp = rp.get('input', {})
-        if inp.get('stream') == 'table':
-            check_table(inp['fn'], inp['var'], Fraction(inp['x']), origin='replay')
-        elif inp.get('stream') == 'expr':
-            def parse(tk):
-                t = tk.pop(0)
-                h = t.split(':')
-                if h[0] in ('var', 'nan'):
-                    return (h[0],)
-                if h[0] == 'c':
-                    return ('c', Fraction(h[1]))
-                if h[0] in ('add', 'sub', 'mul', 'div'):
-                    a = parse(tk)
-                    return (h[0], a, parse(tk))
-                if h[0] == 'neg':
-                    return ('neg', parse(tk))
-                if h[0] == 'pow':
-                    return ('pow', int(h[1]), parse(tk))
-                if h[0] == 'app':
-                    return ('app', ':'.join(h[1:]), parse(tk))
-                if h[0] == 'pw':
-                    l_ = parse(tk); r_ = parse(tk); t_ = parse(tk)
-                    return ('pw', h[1], l_, r_, t_, parse(tk))
-                raise ValueError(t)
-            check_expr(parse(inp['tokens'].split()), inp['var'], [Fraction(inp['x'])], with_arrays=False)
-        else:
+        if not run_recorded(inp, 'replay'):
             print('replay: stream %r is re-run by the seeded run only' % inp.get('stream'))
         print('replay done: %d violation(s) reproduced' % len(chk.violations))
         return
+
+    # ------------------------------------------------------------------ corpus first (minimised past findings / repairs)
+    cdir = os.path.join(common.VERIF, 'corpus', 'C17')
+    ncorp = 0
+    if os.path.isdir(cdir) and not replay:
+        for fn_ in sorted(os.listdir(cdir)):
+            if fn_.endswith('.json'):
+                if run_recorded(json.load(open(os.path.join(cdir, fn_))).get('input', {}), 'corpus'):
+                    ncorp += 1
+    chk.coverage['corpus_cases'] = ncorp
 
     # ------------------------------------------------------------------ run the streams
     for tok, doms in table:
@@ -968,6 +1033,8 @@ def run(chk, replay=None):
         check_transcendental()
         check_complex_point()
         check_constant()
+    for i in range(4 if quick else 24):
+        check_response_convergence()
     chk.coverage['harness_only'] = harness_only
 
     # ---- classification of broken obligations / correspondence with no counterexample
